@@ -41,6 +41,7 @@ type OpProfile struct {
 	Kind        ast.Operation
 	PArgsAlways bool // never omit optional arguments
 	ForceName   string // operation name to use (always sent as operationName)
+	HostileStrings bool // string literals / variable values with quotes, backslashes, unicode, control characters
 	Pool        int  // id pool size for node roots
 	IDStyle     int
 }
@@ -439,6 +440,13 @@ func (g *opGen) value(t *ast.Type, depth int, allowVar bool) (string, any) {
 			return strconv.Quote(s), s
 		default:
 			s := pick(g.r, stringPool)
+			if g.p.HostileStrings && g.r.Intn(2) == 0 {
+				s = pick(g.r, []string{`q"uote`, `back\slash`, "unié世", "tab\there", "nl\nx", "\u0001ctl", "#hash", "a:b", ""})
+				g.tag("hostile-string-argument")
+				// GraphQL string literal: JSON escaping is a valid GraphQL escape set
+				b, _ := json.Marshal(s)
+				return string(b), s
+			}
 			return strconv.Quote(s), s
 		}
 	}
